@@ -112,7 +112,8 @@ package ucfg
 //@ pure
 
 //@ func (idxField).GetValue
-//@ props C12
+//@ props C12 C11
+//@ pure
 //@ requires elem != nil
 //@ ensures [hit] err == nil && cfgEval(elem) != nil ==> 0 <= i.i && i.i < len(cfgEval(elem).fields.a) && result == cfgEval(elem).fields.a[i.i]
 //@ ensures [prim] err == nil && cfgEval(elem) == nil ==> i.i == 0 && result == elem
@@ -319,7 +320,7 @@ package ucfg
 //@ ensures result == f.d
 
 //@ func (*Config).GetFields
-//@ props C12
+//@ props C12 C11
 //@ requires c != nil && c.fields != nil
 //@ pure
 //@ ensures [sound] forall j int :: 0 <= j && j < len(result) ==> has(c.fields.d, result[j])
@@ -379,7 +380,8 @@ package ucfg
 //@ pure
 
 //@ func (cfgPath).Has
-//@ props C12
+//@ props C12 C11
+//@ pure
 //@ requires cfg != nil
 //@ requires forall j int :: 0 <= j && j < len(p.fields) ==> p.fields[j] != nil
 //@ loop 1 invariant forall j int :: 0 <= j && j < len(fields) ==> fields[j] != nil
@@ -387,7 +389,7 @@ package ucfg
 //@ loop 1 decreases len(fields)
 
 //@ func (cfgPath).GetValue :: p, cfg, opt -> r, err
-//@ props C12
+//@ props C12 C11
 //@ pure
 //@ ensures [naming_ok !unproved] (err == nil) == pathOk(p, cfg)
 //@ ensures [naming_val !unproved] err == nil ==> r == pathVal(p, cfg)
@@ -515,22 +517,27 @@ package ucfg
 //@ ghost func toStringVal(v value) string
 
 //@ iface value.toInt :: self, opts -> i, err
+//@ pure
 //@ ensures (err == nil) == toIntOk(self)
 //@ ensures err == nil ==> i == toIntVal(self)
 
 //@ iface value.toUint :: self, opts -> u, err
+//@ pure
 //@ ensures (err == nil) == toUintOk(self)
 //@ ensures err == nil ==> u == toUintVal(self)
 
 //@ iface value.toFloat :: self, opts -> f, err
+//@ pure
 //@ ensures (err == nil) == toFloatOk(self)
 //@ ensures err == nil ==> same(f, toFloatVal(self))
 
 //@ iface value.toBool :: self, opts -> b, err
+//@ pure
 //@ ensures (err == nil) == toBoolOk(self)
 //@ ensures err == nil ==> b == toBoolVal(self)
 
 //@ iface value.toString :: self, opts -> s, err
+//@ pure
 //@ ensures (err == nil) == toStringOk(self)
 //@ ensures err == nil ==> s == toStringVal(self)
 
@@ -626,32 +633,39 @@ package ucfg
 //@ ensures result != nil && fresh(result)
 
 //@ func (*Config).getField :: c, name, idx, opts -> r, err
-//@ trusted
+//@ props C11 C12
+//@ pure
 //@ requires c != nil && opts != nil
-//@ ensures err == nil ==> r != nil && r == gotField(c, name, idx)
+//@ ensures [naming !unproved] err == nil ==> r == gotField(c, name, idx)
+//@ ensures [found] err == nil ==> r != nil
 
 //@ func (*Config).Int :: c, name, idx, opts -> result, err
-//@ props C03
+//@ props C03 C11
+//@ pure
 //@ requires c != nil
 //@ ensures [val] err == nil ==> toIntOk(gotField(c, name, idx)) && result == toIntVal(gotField(c, name, idx))
 
 //@ func (*Config).Uint :: c, name, idx, opts -> result, err
-//@ props C03
+//@ props C03 C11
+//@ pure
 //@ requires c != nil
 //@ ensures [val] err == nil ==> toUintOk(gotField(c, name, idx)) && result == toUintVal(gotField(c, name, idx))
 
 //@ func (*Config).Float :: c, name, idx, opts -> result, err
-//@ props C03
+//@ props C03 C11
+//@ pure
 //@ requires c != nil
 //@ ensures [val] err == nil ==> toFloatOk(gotField(c, name, idx)) && same(result, toFloatVal(gotField(c, name, idx)))
 
 //@ func (*Config).Bool :: c, name, idx, opts -> result, err
-//@ props C03
+//@ props C03 C11
+//@ pure
 //@ requires c != nil
 //@ ensures [val] err == nil ==> toBoolOk(gotField(c, name, idx)) && result == toBoolVal(gotField(c, name, idx))
 
 //@ func (*Config).String :: c, name, idx, opts -> result, err
-//@ props C03
+//@ props C03 C11
+//@ pure
 //@ requires c != nil
 //@ ensures [val] err == nil ==> toStringOk(gotField(c, name, idx)) && result == toStringVal(gotField(c, name, idx))
 
@@ -828,13 +842,14 @@ package ucfg
 //@ ensures [rollback] !deref(ok) ==> deref(to).fields.d == deref(old)
 
 //@ func mergeConfigDict
-//@ props C01 C10
+//@ props C01 C10 C11
+//@ tagged-only C11
 //@ uses cfgnil
 //@ requires opts != nil && dictOK(to, from)
 //@ requires !inTree(to, opts) && !inTree(to, from) && !inTree(to, from.fields) && (from.fields.d != nil ==> !inTree(to, from.fields.d))
 //@ modifies tree(to)
 //@ ensures [emptyB] old(from.fields.d) == nil ==> result == nil && to.fields.d == old(to.fields.d)
-//@ ensures [source_untouched] from.fields == old(from.fields) && from.fields.d == old(from.fields.d) && forall k string :: has(from.fields.d, k) == old(has(from.fields.d, k)) && (has(from.fields.d, k) ==> from.fields.d[k] == old(from.fields.d[k]))
+//@ ensures [source_untouched @C01,C10,C11] from.fields == old(from.fields) && from.fields.d == old(from.fields.d) && forall k string :: has(from.fields.d, k) == old(has(from.fields.d, k)) && (has(from.fields.d, k) ==> from.fields.d[k] == old(from.fields.d[k]))
 //@ ensures [union_keys] result == nil && old(from.fields.d) != nil && old(opts.configValueHandling) != cfgReplaceValue ==> forall k string :: has(to.fields.d, k) == (old(has(to.fields.d, k)) || old(has(from.fields.d, k)))
 //@ ensures [replace_keys] result == nil && old(opts.configValueHandling) == cfgReplaceValue && old(len(from.fields.d)) != 0 ==> forall k string :: has(to.fields.d, k) == old(has(from.fields.d, k))
 //@ ensures [new_keys] result == nil && old(len(from.fields.d)) != 0 ==> forall k string :: old(has(from.fields.d, k)) && (old(opts.configValueHandling) == cfgReplaceValue || !old(has(to.fields.d, k))) ==> copyOf(to.fields.d[k], mvSpec(nilv(), old(from.fields.d[k]))) && fresh(to.fields.d[k]) && cctx(to.fields.d[k]).parent == subval(to) && cctx(to.fields.d[k]).field == k
@@ -920,7 +935,8 @@ package ucfg
 // ---------------------------------------------------------------- C12: field operations on one node
 
 //@ func (namedField).GetValue :: n, opts, elem -> r, err
-//@ props C12
+//@ props C12 C11
+//@ pure
 //@ requires elem != nil
 //@ ensures [noobj] cfgEval(elem) == nil ==> err != nil && r == nil
 //@ ensures [hit] cfgEval(elem) != nil && has(cfgEval(elem).fields.d, n.name) ==> err == nil && r == cfgEval(elem).fields.d[n.name]
@@ -950,19 +966,19 @@ package ucfg
 //@ ensures [shift] typeof(elem) == cfgSub && 0 <= i.i && i.i < len(old(elem.(cfgSub).c.fields.a)) ==> err == nil && removed && len(elem.(cfgSub).c.fields.a) == len(old(elem.(cfgSub).c.fields.a)) - 1
 
 //@ func (*Config).HasField :: c, name -> r
-//@ props C12
+//@ props C12 C11
 //@ requires c != nil && c.fields != nil
 //@ pure
 //@ ensures [spec] r == has(c.fields.d, name)
 
 //@ func (*Config).IsDict :: c -> r
-//@ props C12
+//@ props C12 C11
 //@ requires c != nil && c.fields != nil
 //@ pure
 //@ ensures [spec] r == (c.fields.d != nil)
 
 //@ func (*Config).IsArray :: c -> r
-//@ props C12
+//@ props C12 C11
 //@ requires c != nil && c.fields != nil
 //@ pure
 //@ ensures [spec] r == (c.fields.a != nil)
@@ -970,10 +986,12 @@ package ucfg
 // ---------------------------------------------------------------- C14: every error leaving the exported API is a ucfg.Error
 
 //@ iface value.Len :: self, opts -> n, err
+//@ pure
 
 //@ func (*Config).CountField :: c, name, opts -> n, err
-//@ props C12 C14
+//@ props C12 C14 C11
 //@ tagged-only C14 C12
+//@ pure
 //@ requires c != nil && c.fields != nil
 //@ requires forall k string :: has(c.fields.d, k) ==> c.fields.d[k] != nil
 //@ requires len(c.fields.a) + len(c.fields.d) <= 9223372036854775807
@@ -982,12 +1000,14 @@ package ucfg
 //@ ensures [missing @C12] name != "" && !old(has(c.fields.d, name)) ==> err != nil
 
 //@ func (*Config).Child :: c, name, idx, opts -> r, err
-//@ props C14
+//@ props C14 C11
+//@ pure
 //@ requires c != nil
 //@ ensures [typed] isTyped(err)
 
 //@ func (*Config).Has :: c, name, idx, options -> r, err
-//@ props C14
+//@ props C14 C11
+//@ pure
 //@ requires c != nil
 //@ ensures [typed] isTyped(err)
 
@@ -1226,3 +1246,70 @@ package ucfg
 //@ func tryInitDefaults
 //@ trusted
 //@ pure
+
+// ---------------------------------------------------------------- C11: reads are pure (frame conditions)
+
+//@ iface Error.Reason :: self -> r
+//@ pure
+
+//@ func (*context).path :: c, sep -> r
+//@ props C11
+//@ nonil
+//@ pure
+
+//@ func (*context).pathOf :: c, field, sep -> r
+//@ props C11
+//@ nonil
+//@ pure
+
+//@ func (*Config).Path :: c, sep -> r
+//@ props C11
+//@ requires c != nil
+//@ pure
+
+//@ func (*Config).PathOf :: c, field, sep -> r
+//@ props C11
+//@ requires c != nil
+//@ pure
+
+//@ func (*Config).Parent :: c -> r
+//@ props C11
+//@ requires c != nil
+//@ pure
+
+// The closures through which a dynamic value (reference / splice) forwards a conversion: they write their
+// captured result variables and nothing of any configuration.
+//@ func (*cfgDynamic).toConfig$1
+//@ props C11
+//@ nonil
+//@ modifies cell(cfg), cell(err)
+
+//@ func (*cfgDynamic).toInt$1
+//@ props C11
+//@ nonil
+//@ modifies cell(i), cell(err)
+
+//@ func (*cfgDynamic).toUint$1
+//@ props C11
+//@ nonil
+//@ modifies cell(u), cell(err)
+
+//@ func (*cfgDynamic).toFloat$1
+//@ props C11
+//@ nonil
+//@ modifies cell(f), cell(err)
+
+//@ func (*cfgDynamic).toBool$1
+//@ props C11
+//@ nonil
+//@ modifies cell(b), cell(err)
+
+//@ func (*cfgDynamic).toString$1
+//@ props C11
+//@ nonil
+//@ modifies cell(s), cell(err)
+
+//@ func (*cfgDynamic).Len$1
+//@ props C11
+//@ nonil
+//@ modifies cell(l), cell(err)
